@@ -82,7 +82,8 @@ MECHANISMS = ('rel-step-frozen-at-first-linearization', 'mixed-wrt-options', 'co
               'colored-beside-other-method',
               'colored-cs-sparsity-by-fd-with-cs-step', 'approx-group-with-implicit-comp',
               'approx-group-block-reuses-component-subjac', 'approx-group-under-assembled-jacobian',
-              'approx-group-with-matrix-free-comp', 'approx-group-with-own-gradient-solver')
+              'approx-group-with-matrix-free-comp', 'approx-group-with-own-gradient-solver',
+              'approx-group-own-newton-discards-jacobian', 'approx-model-stale-totaljac-in-own-newton')
 SCENARIOS = ['partials', 'partials', 'partials', 'colored', 'colored', 'semitotal', 'semitotal', 'total']
 HIST_SCENARIOS = ['hist-colored', 'hist-colored', 'hist-total']
 
@@ -1013,7 +1014,16 @@ def _run_colored(case, acc, hist=False):
     cs_step_imp = any(c['kind'] == 'imp' and any(o['method'] == 'cs' and o.get('step')
                                                 for o in c['c12']['self'].values()) for c in comps)
 
-    def K(what):
+    mech_seen = {}
+
+    def K(what, msg=None):
+        for mname in ('colored-rel-step-from-single-wrt', 'colored-rel-step-from-earlier-point'):
+            # a wrong (1e-12 minimum / foreign) step observed on an implicit colored component at an earlier point:
+            # its dr/dy column rounds to zero, the enclosing DirectSolver names one of its states as singular
+            if 'raises:RuntimeError@direct.py' in what and msg and any(
+                    mname in mech_seen.get(c['name'], ()) and c['kind'] == 'imp' and
+                    any(('.' + o['name'] + "'") in msg for o in c['outputs']) for c in comps):
+                return '%s:colored:%s' % (mname, what)
         if cs_step_imp and 'raises:RuntimeError@direct.py' in what:
             # the zero sparsity (fd sparsity sweep with the cs step) wipes the dr/dy block of the implicit component
             return 'colored-cs-sparsity-by-fd-with-cs-step:colored:%s' % what
@@ -1115,6 +1125,7 @@ def _run_colored(case, acc, hist=False):
                         # (only mechanisms confirmed by the observed perturbations are named)
                         mech[c['name']] |= set(kp for kp, ob, _ in o2 if kp.startswith(MECHANISMS) and
                                                ob == 'step-size')
+                        mech_seen.setdefault(c['name'], set()).update(mech[c['name']])
                         out += o2
                         info = sysm[c['name']]._coloring_info
                         ncols = sum(states[c['name']][0][k].size for k in set(
@@ -1475,6 +1486,28 @@ def _run_total_hist(case, acc):
            sample={'seed': case['seed'], 'scenario': case['scenario'], 'opts': opts, 'kinds': kinds})
 
 
+def _zero_states(prob, msg):
+    """names of the states whose row or column is all zero in the (finite) matrix of the DirectSolver named in msg."""
+    import openmdao.api as om
+    out = set()
+    try:
+        for s in prob.model.system_iter(include_self=True, recurse=True, typ=om.Group):
+            ls = s._linear_solver
+            if not isinstance(ls, om.DirectSolver) or s.msginfo not in msg:
+                continue
+            M = s._assembled_jac.get_dr_do_matrix() if s._assembled_jac is not None else ls._build_mtx()
+            M = np.asarray(M.toarray() if hasattr(M, 'toarray') else M)
+            if not np.all(np.isfinite(M)):
+                return set()
+            nm = []
+            for n in s._resolver.abs_iter('output'):
+                nm += [n] * s._var_abs2meta['output'][n]['size']
+            out |= set(nm[i] for i in range(M.shape[0]) if not np.any(M[i]) or not np.any(M[:, i]))
+    except Exception:
+        return set()
+    return out
+
+
 def _cached_group_step(grp, method, abs_wrt):
     """white box: |step| per entry that the group's approximation scheme has cached for a wrt variable."""
     sch = grp._approx_schemes.get(method)
@@ -1515,6 +1548,7 @@ def _run_group(case, acc):
     from omv.gen import models as G
     from omv.gen import c12_kit as kit
     from omv.ref.flatmodel import FlatModel
+    from openmdao.jacobians.dictionary_jacobian import DictionaryJacobian
     total = case['scenario'] == 'total'
     scen0 = case['scenario']
     spec, rng = _gen_spec(case, p_group=0.6 if total else 0.95, p_matfree=0.1)
@@ -1576,6 +1610,14 @@ def _run_group(case, acc):
 
     def K(what, msg=None):
         names = lambda outs: msg is None or any((o + "'") in msg for o in outs)   # noqa: E731
+        if has_imp and not total and 'raises:RuntimeError@direct.py:_inverse' in what and msg and \
+                msg.startswith('NaN entries found') and msg.rstrip().endswith('[].'):
+            # DirectSolver._inverse (Broyden) catches scipy's LinAlgError (a ValueError) of an exactly singular
+            # matrix as "NaN entries ... []" and names no state: look at the matrix - all-zero rows/columns that
+            # belong only to states of the group's implicit components are the same mechanism
+            zs = _zero_states(prob, msg)
+            if zs and all(z.rsplit('.', 1)[-1] in imp_outs for z in zs):
+                return 'approx-group-with-implicit-comp:%s:%s' % (scen0, what)
         if has_imp and not total and 'raises:RuntimeError@direct.py' in what and names(imp_outs):
             # the (state, state) block of the approximated group is not the explicit -1 diagonal; the solver
             # names a state of an implicit component of the group as the singular one
@@ -1586,6 +1628,11 @@ def _run_group(case, acc):
         if own_grad and not total and 'raises:' in what and '@direct.py' in what:
             # the approximated group itself is solved by Newton/Broyden with a DirectSolver
             return 'approx-group-with-own-gradient-solver:%s:%s' % (scen0, what)
+        if own_grad and total and 'raises:AttributeError@group.py:_apply_linear' in what and \
+                (msg is None or '_TotalJacInfo' in msg):
+            # model.approx_totals() + Newton/Broyden at the root: the _TotalJacInfo that compute_totals left in
+            # model._jacobian is used as the linear operator of the next nonlinear solve
+            return 'approx-model-stale-totaljac-in-own-newton:%s:%s' % (scen0, what)
         return '%s:%s:%s' % (scen0, what, opts['method'] + ('+iterative' if iterative else ''))
     judged_blocks = 0
     nonlin = False
@@ -1791,6 +1838,14 @@ def _run_group(case, acc):
                                     kp = [k_ for k_, _, _ in out if k_.startswith(MECHANISMS)][0]
                                 elif has_mf:
                                     kp = 'approx-group-with-matrix-free-comp'
+                                elif own_grad and node.get('ln', {}).get('type') != 'direct' and \
+                                        not isinstance(grp._jacobian, DictionaryJacobian):
+                                    # white box: the group's own Newton/Broyden (which switches
+                                    # _owns_approx_jac off) called Group._apply_linear -> _get_jacobian during the
+                                    # FD solves and replaced the approximation jacobian being filled
+                                    kp = 'approx-group-own-newton-discards-jacobian'
+                                    if os.environ.get('OMV_DEBUG'):
+                                        print('C12 debug: grp._jacobian after totals:', type(grp._jacobian).__name__)
                                 out.append((kp, 'model-totals', 'totals of the model through the approximated group '
                                             'differ from exact by %.3e (> %.3e); e.g. got %.8g exact %.8g' %
                                             (em.max(), tolF, Jm.ravel()[em.argmax()], Jr.ravel()[em.argmax()])))
